@@ -55,6 +55,9 @@ func (sv *c16Servers) ServeHTTP(w http.ResponseWriter, r *http.Request) {
 		http.Error(w, "unknown source", 404)
 		return
 	}
+	if s.delayMs > 0 {
+		time.Sleep(time.Duration(s.delayMs) * time.Millisecond)
+	}
 	switch s.kind {
 	case c16KTrHTTP500, c16KTrInsecure500:
 		http.Error(w, "scripted", 500)
@@ -167,6 +170,19 @@ func (rt *c16RT) RoundTrip(req *http.Request) (*http.Response, error) {
 		return rt.env.RoundTrip(req)
 	}
 	g := rt.env.gates[req.URL.String()]
+	addr := req.URL.String()
+	if g == nil { // adjustURL rewrote the query (-seconds): find the source by its path
+		addr = rt.env.byPath[req.URL.Path]
+		g = rt.env.gates[addr]
+	}
+	if dl, ok := req.Context().Deadline(); ok {
+		rt.env.mu.Lock()
+		if rt.env.allow == nil {
+			rt.env.allow = map[string]time.Duration{}
+		}
+		rt.env.allow[addr] = time.Until(dl)
+		rt.env.mu.Unlock()
+	}
 	resp, err := rt.real.RoundTrip(req)
 	if g != nil {
 		g.onceT.Do(func() { close(g.returned) })
